@@ -156,14 +156,37 @@ static std::vector<int> req_lengths(bool hra, int variant) {
     for (int n = 6; n <= 400; n++) { uint64_t st = req_level0_state(n, hra); by[st == 0 ? 0 : (st % 2 == 0 ? 1 : 2)].push_back(n); }
     cache[hra] = by;
   }
+  // variant 0: an EMPTY never-compacted sketch and the shortest streams right after the compaction that produced the state;
+  // variant 1: a few items in the never-compacted sketch, and a few more items after that compaction
   std::vector<int> len;
-  for (auto& l : cache[hra]) { if (l.empty()) { fprintf(stderr, "coin_rec: no stream length for a state class\n"); exit(5); } len.push_back(l[std::min<size_t>((size_t)variant * 5, l.size() - 1)]); }
+  for (int c = 0; c < 3; c++) {
+    auto& l = cache[hra][c];
+    if (l.empty()) { fprintf(stderr, "coin_rec: no stream length for a state class\n"); exit(5); }
+    if (c == 0) len.push_back(variant == 0 ? 0 : 5);
+    else len.push_back(l[std::min<size_t>(variant == 0 ? 0 : 3, l.size() - 1)]);
+  }
   return len;
 }
 // shape over sketches S0..S(m-1) as a sequence of merges (dst, src); S0 is the final sketch and is then updated further
 typedef std::vector<std::pair<int, int>> Shape;
-static Scenario req_shape(const std::string& name, bool hra, const std::vector<int>& lens, const Shape& shape, int post, uint64_t salt, bool rv) {
+static uint64_t level0_state(const req_sketch<float>& s) {
+  if (s.get_n() <= 4) return 0;
+  auto b = s.serialize(); uint64_t st; memcpy(&st, b.data() + (s.is_estimation_mode() ? 24 : 8), 8); return st;
+}
+static Scenario req_shape(const std::string& name, bool hra, const std::vector<int>& lens, const Shape& shape, int post_min, uint64_t salt, bool rv) {
   Scenario sc; sc.name = name; sc.fam = "req"; sc.skip_if_over = true;
+  // continue after the merges until the final sketch's level-0 compactor has compacted twice more (one even, one odd compaction)
+  int post = post_min;
+  {
+    typedef req_sketch<float> R;
+    g_cs.bits = 0; g_cs.pos = 0;
+    std::vector<std::unique_ptr<R>> sk; int x0 = 0;
+    for (int x : lens) { sk.emplace_back(new R(4, hra)); for (int i = 0; i < x; i++) sk.back()->update((float)(x0++)); }
+    for (auto& m : shape) sk[m.first]->merge(*sk[m.second]);
+    const uint64_t st0 = level0_state(*sk[0]);
+    int extra = 0; while (extra < 200 && level0_state(*sk[0]) < st0 + 2) { sk[0]->update((float)(x0++)); extra++; }
+    post = std::max(post_min, extra + 2);
+  }
   int total = post; for (int x : lens) total += x;
   sc.nmin = sc.nmax = total;
   sc.stream = [=](int n) { return values(n, salt, 0); };
@@ -192,12 +215,12 @@ static void req_shapes(std::vector<std::vector<Scenario>>& parts, int m, uint64_
   }
   int patterns = 1; for (int i = 0; i < m; i++) patterns *= 3;
   std::vector<Scenario> cur; int idx = 0;
-  for (int p = 0; p < patterns; p++) for (size_t sh = 0; sh < shapes.size(); sh++, idx++) {
-    const bool hra = (p + (int)sh) % 2 == 0;
-    std::vector<int> L = req_lengths(hra, (p + (int)sh) % 2);
+  for (int p = 0; p < patterns; p++) for (size_t sh = 0; sh < shapes.size(); sh++) for (int var = 0; var < 2; var++, idx++) {
+    const bool hra = (p + (int)sh + var) % 2 == 0;
+    std::vector<int> L = req_lengths(hra, var);
     std::vector<int> lens; std::string pat; int q = p;
     for (int i = 0; i < m; i++) { lens.push_back(L[q % 3]); pat += CN[q % 3]; q /= 3; }
-    cur.push_back(req_shape("req-shape" + std::to_string(m) + "-" + sn[sh] + "-" + pat + (hra ? "-hra" : "-lra"), hra, lens, shapes[sh], 30, seed * 131 + (uint64_t)idx, idx % 3 == 0));
+    cur.push_back(req_shape("req-shape" + std::to_string(m) + "-" + sn[sh] + "-" + pat + (var ? "-b" : "-a") + (hra ? "-hra" : "-lra"), hra, lens, shapes[sh], 30, seed * 131 + (uint64_t)idx, idx % 3 == 0));
     if (cur.size() == per_part) { parts.push_back(cur); cur.clear(); }
   }
   if (!cur.empty()) parts.push_back(cur);
@@ -272,8 +295,8 @@ int main(int argc, char** argv) {
   // exhaustive classic down-sampling merges (k ratio 2, 4, 8; both directions) ride along with the classic parts 10..14
   { int j = 0; for (int ratio : {2, 4, 8}) for (int dir = 0; dir < 2; dir++, j++)
       parts[10 + j % 5].push_back(downsample("classic-downsample-x" + std::to_string(ratio) + (dir ? "-small-absorbs-large" : "-large-absorbs-small"), ratio, dir == 1, seed * 11 + 20 + (uint64_t)j)); }
-  req_shapes(parts, 3, seed, 9);
-  if (vt::argl(argc, argv, "--shapes4", 0)) req_shapes(parts, 4, seed + 1, 27);
+  req_shapes(parts, 3, seed, 18);
+  if (vt::argl(argc, argv, "--shapes4", 0)) req_shapes(parts, 4, seed + 1, 54);
   if (vt::argl(argc, argv, "--count", 0)) { printf("%zu\n", parts.size()); return 0; }
   long seg = 0, done = 0;
   for (size_t i = 0; i < parts.size(); i++) if (part < 0 || (size_t)part == i) for (auto& sc : parts[i]) { if (execute(sc, fmax, seg++)) done++; }
